@@ -278,7 +278,11 @@ static Verdict c16_cast(const Case& c) {
     for (int i = 0; i < n; i++) if (!same_bits(nt, back[i], src[i]))
       return Verdict::fail(fmt("%s: <%s> -> <%s> -> <%s> by %s changes component %d from %s to %s", R->name, ntinfo(nt).name, ntinfo(to).name, ntinfo(nt).name, how, i, hexld(src[i]).c_str(), hexld(back[i]).c_str()));
     V.cls += ";widen-narrow";
-  } else V.cls += inexact ? ";narrowing-inexact" : ";narrowing-exact";
+  } else {
+    V.cls += inexact ? ";narrowing-inexact" : ";narrowing-exact";
+    bool tie = false; for (int i = 0; i < n; i++) { const LD w = cast_to(to, src[i]); if (w != src[i] && std::fabs(std::fabs(src[i] - w) - ulp_at(to, w) / 2) <= 2 * ulp_at(nt, src[i])) tie = true; }
+    if (tie) V.cls += ";at-or-next-to-a-rounding-tie";
+  }
   V.nontrivial = (n == 1 || distinct_comps(src, n)) && (inexact || ntinfo(to).mant > ntinfo(nt).mant);
   V.show = fmt("%s %s -> %s %s", R->name, ntinfo(nt).name, ntinfo(to).name, comps_str(src, n).c_str());
   return V;
@@ -295,6 +299,9 @@ static rc::Gen<Case> gen_c16(int inst) {
     Case c; c.i = {q, nt, t2, via}; c.r = std::get<0>(t);
     if (std::get<1>(t) == 0) for (auto& x : c.r) x = 0;                                   // the all-zero value (zero vector, zero direction)
     if (std::get<1>(t) == 1) for (auto& x : c.r) x = std::signbit(x) ? -(LD)0 : (LD)0;    // signed zeros
+    // narrowing: components on, and one source-ulp either side of, a rounding tie of the target type (a cast that goes through an intermediate
+    // type rounds twice and breaks such ties the wrong way; random values are that close to a tie with probability 2^-29)
+    if (std::get<1>(t) >= 2 && std::get<1>(t) <= 7 && narrow == t2 && R->kind != 2) to_rounding_ties(c.r, nt, t2, std::get<1>(t) - 2);
     return c; });
 }
 
